@@ -1,6 +1,6 @@
 \* scenario generation, thorough scope
-CONSTANTS WeightVecs = {1, 2, 3, 4, 5, 6, 7, 8, 9, 10, 11, 12}  FeatDiag = TRUE  NPods = 2  PodArchs = {1, 2, 3, 4, 5, 6, 7, 10}
+CONSTANTS WeightVecs = {1, 2, 3, 4, 5, 6, 7, 8, 9, 10, 11, 12}  FeatDiag = TRUE  NPods = 2  PodArchs = {1, 2, 3, 5, 6, 7, 10}
 CONSTANTS Feats = {"plain", "taint", "prefer", "limit", "limit16", "zoneA", "teamX", "min2", "archMin2", "notReady", "startup"}
-CONSTANTS Catalogs = {1, 2}  DaemonSets = {0, 2}  MaxTypesSet = {2}  Policies = {"Strict"}  Weak = ""
+CONSTANTS Catalogs = {2}  DaemonSets = {0, 2}  MaxTypesSet = {2}  Policies = {"Strict"}  Weak = ""
 SPECIFICATION GenSpec
 INVARIANTS GenPrint
